@@ -5,7 +5,11 @@ Space: every program (forest) of <= n binding constructs over
 away and/or at the END of the enclosing function/module body (after every let
 has been left), ((fn [v] ...) E) parameter shadowing, lfor v, with [v ...],
 except [v ...], match capture, defn/defclass/import of a pool name} with every
-name drawn from a small shared pool; a logged read `(log i v)` of EVERY pool
+name drawn from a small shared pool, plus every single `let` with 2-3 bindings
+(each a pool name with a value that may read an earlier name - the same name
+may be bound twice - or a helper bound to a closure `(fn [] reads)` / generator
+`(gfor _ [0] [reads])` that is called / consumed after the later bindings) and a
+small body; a logged read `(log i v)` of EVERY pool
 name at EVERY statement boundary of every body; at module level, inside a
 function whose parameters are the pool names, and inside a parameterless
 function (pool names are module globals).
@@ -42,6 +46,7 @@ ASSUMPTIONS = [
     "unspecified: defn/defclass/import inside a comprehension body (whether such a definition is 'visible outside the form' is not documented)",
     "unspecified: defn/defclass/import of the except variable inside its handler, or of a name bound by two nested let / except bindings of one Python scope",
     "unspecified: an except variable used by a closure after its handler has ended (Python deletes it; Hy's docs say only 'like except ETYPE as VAR')",
+    "every body reads every pool name at least twice (an empty body gets two rounds of reads), so every scope has two reference nodes per name",
     "pinned by tests/native_tests/let.hy rather than api.rst: with/for targets assign the let binding; after defn/defclass/import of a let-bound name the name means the Python-scope variable for the rest of the let; a name assigned in a nested function's own scope is local there even when let-bound outside",
 ]
 TIME_CAP = {"quick": 900, "thorough": 5400}
@@ -49,16 +54,22 @@ TIME_CAP = {"quick": 900, "thorough": 5400}
 XY = ("x", "y")
 XYZ = ("x", "y", "z")
 # levels: (n, pool, alphabet 0 mini / 1 core / 2 full, wrappers)
+# letm:   (number of bindings of the single multi-binding let, pool, max constructs in its body, body alphabet, wrappers)
 BOUNDS = {
-    "quick": dict(levels=[(1, XY, 2, S.WRAPPERS), (2, XY, 2, S.WRAPPERS), (3, XY, 0, S.WRAPPERS)], per_shard=600),
+    "quick": dict(levels=[(1, XY, 2, S.WRAPPERS), (2, XY, 2, S.WRAPPERS), (3, XY, 0, ("mod", "fnp"))], per_shard=600,
+                  letm=[(2, XY, 1, 0, S.WRAPPERS), (3, XY, 0, 0, S.WRAPPERS)]),
     "thorough": dict(levels=[(1, XYZ, 2, S.WRAPPERS), (2, XYZ, 2, S.WRAPPERS), (3, XYZ, 1, S.WRAPPERS),
-                             (3, XY, 2, S.WRAPPERS), (4, XY, 0, ("mod", "fng"))], per_shard=6000),
+                             (3, XY, 2, S.WRAPPERS), (4, XY, 0, ("mod", "fng"))], per_shard=6000,
+                     letm=[(2, XYZ, 1, 1, S.WRAPPERS), (2, XY, 2, 1, S.WRAPPERS), (3, XY, 1, 0, S.WRAPPERS), (3, XYZ, 0, 0, S.WRAPPERS)]),
 }
 
 
 def bounds(tier):
     b = BOUNDS[tier]
     out = {"levels(n_constructs, pool, alphabet(0 mini/1 core/2 full), wrappers)": [[n, list(p), f, list(w)] for n, p, f, w in b["levels"]]}
+    out["multi_binding_lets(bindings, pool, max_body_constructs, body_alphabet, wrappers)"] = [
+        [nb, list(p), bn, f, list(w)] for nb, p, bn, f, w in b["letm"]]
+    out["multi_binding_slot"] = "v x {K, read own name, read next name} for v in pool, or helper = (fn [] reads) / (gfor _ [0] [reads]) called/consumed at the start of the body"
     for full in (0, 1, 2):
         lv, hd = S.alphabet(XY, full)
         out["alphabet_" + ("mini", "core", "full")[full]] = sorted({":".join(x for x in t if x not in XY) for t in lv + hd})
@@ -97,10 +108,22 @@ def shards(tier):
             for h in range(len(heads)):
                 for lo in range(0, F[k - 1], step):
                     out.append([li, k, h, lo, min(F[k - 1], lo + step)])
+    for li, (nb, pool, bn, full, wr) in enumerate(b["letm"]):
+        total = len(S.letm_programs(nb, pool, bn, full))
+        step = max(1, b["per_shard"] // 2)
+        for lo in range(0, total, step):
+            out.append(["m", li, lo, min(total, lo + step)])
     return out
 
 
 def _iter_shard(shard, tier):
+    if shard[0] == "m":
+        _, li, lo, hi = shard
+        nb, pool, bn, full, wr = BOUNDS[tier]["letm"][li]
+        for f in S.letm_programs(nb, pool, bn, full)[lo:hi]:
+            if S.canonical(f, pool):
+                yield f, pool, wr
+        return
     li, k, h, lo, hi = shard
     n, pool, full, wr = BOUNDS[tier]["levels"][li]
     leaves, heads = S.alphabet(pool, full)
@@ -199,7 +222,12 @@ def _shape(forest):
         for t in fs:
             if len(out) >= 4:
                 return
-            if t[0] == "clo":
+            if t[0] == "letm":
+                bound = [b[1] for b in t[1] if b[0] == "b"]
+                out.append("%sletm[%s]" % (">" * depth, ",".join(("=" if b[1] in names or bound.count(b[1]) > 1 else "~") + b[2]
+                                                                   if b[0] == "b" else b[1] for b in t[1])))
+                walk(t[2], depth + 1, names | set(bound))
+            elif t[0] == "clo":
                 out.append("%s%s.%s" % (">" * depth, t[1], t[2]))
                 walk(t[3], depth + 1, names)
             else:
@@ -226,6 +254,8 @@ def _tag(forest, lets=frozenset(), inmatch=frozenset(), depth=0):
             r = _tag(t[3])
         elif op == "let":
             r = _tag(t[3], lets | {t[1]}, inmatch, depth)
+        elif op == "letm":
+            r = _tag(t[2], lets | {b[1] for b in t[1] if b[0] == "b"}, inmatch, depth)
         elif op == "match":
             r = _tag(t[2], lets, inmatch | ({t[1]} & lets), depth)
         elif op == "lfor":
@@ -320,7 +350,7 @@ def run_shard(shard, tier):
         for op in S.ops_in(forest):
             acc.count("op:" + op)
         for w in wrappers:
-            check_case(acc, forest, pool, w, sample=(i == 7 and w == wrappers[0] and shard[3] == 0))
+            check_case(acc, forest, pool, w, sample=(i == 7 and w == wrappers[0] and shard[-2] == 0))
     return acc.result()
 
 
